@@ -1,6 +1,6 @@
 """C17 - output exclusivity and dependency graph consistent for any registration history."""
 import json, os, re, copy
-import vlib
+import vlib, rtlib
 
 
 def run(ctx):
@@ -36,20 +36,7 @@ def run(ctx):
         if crashes > 40:
             raise vlib.Infra("too many crashes of the C17 driver")
     ctx.cov["process_crashes"] = crashes
-    # directed schedule (real time, no bubble): an event is being delivered while a registration that will be rejected is half-way
-    # through (TestRejectedRegistrationRace); a crash of the delivery goroutine takes the process down
-    rc, o = vlib.go_run(ctx, binary, "TestRejectedRegistrationRace", {}, timeout=600, allow_fail=True)
-    ctx.cov["rejected_registration_race_rounds"] = 3
-    if rc != 0:
-        if re.search(r"panic|SIGSEGV|fatal error", o) and "github.com/cosi-project/runtime/pkg/controller/runtime" in o:
-            ctx.violation("runtime-crashed/delivery-during-rejected-registration",
-                          "event delivered while a registration that is rejected and rolled back holds the registration lock: the delivery "
-                          "goroutine crashed the process", {"driver": "TestRejectedRegistrationRace", "output": o[o.find("panic"):][:3000]})
-        elif "not notified" in o or "was accepted" in o or "did not return" in o:
-            ctx.violation("rejected-registration-race/" + ("notification-lost" if "not notified" in o else "other"),
-                          "rejected registration racing an event delivery: " + o[-600:], {"driver": "TestRejectedRegistrationRace", "output": o[-3000:]})
-        else:
-            raise vlib.Infra("TestRejectedRegistrationRace failed without a verdict:\n" + o[-3000:])
+    rtlib.registration_races(ctx, binary)
     recs = vlib.read_ndjson(out)
     traces = vlib.split_traces(recs)
     mism, consumed, r = vlib.validate(ctx, "TraceDepDB", "TraceDepDB.cfg", out, timeout=2400)
